@@ -473,8 +473,16 @@ func (e *Exec) ensureInit(p *ssa.Package) {
 
 func (P *Program) build(p *ssa.Package) {
 	P.buildMu.Lock()
+	defer P.buildMu.Unlock()
 	p.Build()
-	P.buildMu.Unlock()
+}
+
+// lookupMethod is a panic-safe, serialised wrapper around Program.LookupMethod.
+func (P *Program) lookupMethod(t types.Type, pkg *types.Package, name string) *ssa.Function {
+	P.buildMu.Lock()
+	defer P.buildMu.Unlock()
+	defer func() { recover() }()
+	return P.prog.LookupMethod(t, pkg, name)
 }
 
 func (P *Program) ensureBuilt(fn *ssa.Function) {
